@@ -80,11 +80,26 @@ func c12(cx *Ctx, r *ev.Report) {
 			}
 		}
 	}
+	var undecidedArms []string
+	for _, a := range cx.Arms() {
+		if a.Undecided != nil {
+			undecidedArms = append(undecidedArms, a.Enc)
+		}
+	}
+	covered := map[string]bool{} // functions some exhaustive summary interprets
 	for _, a := range cx.Arms() {
 		addLog(a.Sites)
+		if a.Undecided == nil {
+			for _, f := range a.Funcs {
+				covered[f] = true
+			}
+		}
 	}
 	if sa := cx.stepAnalysis(); sa != nil && sa.impl != nil {
 		addLog(sa.impl.Sites)
+		for _, f := range sa.impl.Funcs {
+			covered[f] = true
+		}
 		for _, m := range sa.im0Sites {
 			addLog(m)
 		}
@@ -134,6 +149,10 @@ func c12(cx *Ctx, r *ev.Report) {
 			byRule[strings.SplitN(s.By, ":", 2)[0]]++
 		case va != nil && va.ok > 0 && va.bad == 0:
 			byRule["SUMMARY-VALUE"]++
+		case va == nil && covered[s.Fn.String()] && len(undecidedArms) == 0:
+			// the function is interpreted by the exhaustive summaries and no
+			// feasible path of any of them reaches this instruction
+			byRule["SUMMARY-UNREACHED"]++
 		default:
 			a.det = append(a.det, fmt.Sprintf("%s: %s (%s) in %s can panic: %s (and no summary reaches it with a value-based verdict)", cx.P.Pos(s.Instr.Pos()), s.What, s.Kind, s.Fn, s.Why))
 		}
